@@ -699,6 +699,22 @@ func (circuitSuite) Gen(r *rand.Rand, i int) Case {
 		tag("override-over-elapsed-window")
 		armed += 2
 	}
+	if (opener == "consec" || opener == "hystrix") && pt == "" && r.Intn(8) == 0 {
+		// directed prelude: failures pile up, the circuit is rebuilt (the factories are asked for NEW logic), one more
+		// failure — the fresh opener must start from nothing
+		fails := 1 + r.Intn(3)
+		for k := 0; k < fails; k++ {
+			id++
+			c.Ops = append(c.Ops, fmt.Sprintf("exec ctx=bg run=e%d radv=0 rcancel=0 fb=none fadv=0 fcancel=0 ans=0000", id))
+		}
+		c.Ops = append(c.Ops, "rebuild")
+		for k := 0; k < 2; k++ {
+			id++
+			c.Ops = append(c.Ops, fmt.Sprintf("exec ctx=bg run=e%d radv=0 rcancel=0 fb=none fadv=0 fcancel=0 ans=0000", id))
+		}
+		tag("rebuild-after-failures")
+		armed = 0
+	}
 	for j := 0; j < nops; j++ {
 		x := r.Intn(100)
 		if pt != "" {
